@@ -124,7 +124,8 @@ func (e *PathMatchExpression) expandPaths(sub *PathMatchExpression) {
 	for i, dest := range e.paths {
 		for j, src := range sub.paths {
 			k := (i * len(sub.paths)) + j
-			expanded[k] = append(dest, src...)
+			// each expanded path gets its own array: dest may have room to spare
+			expanded[k] = append(append(make(segments, 0, len(dest)+len(src)), dest...), src...)
 		}
 	}
 	e.paths = expanded
